@@ -2,7 +2,12 @@
 (* Trace validation of the real C routine (hook H1) against Watershed.tla.                 *)
 (* One TLC run validates a batch of recorded executions that share (NK, NTH, IHMAX).       *)
 (* Trace lines (ndjson, integers only):                                                    *)
-(*   input {tid, e}            the spectrum handed to partition(), C order                 *)
+(*   input {tid, e, mode, lv, cst}   mode 0: e = the integer spectrum handed to partition(), C order;       *)
+(*                             mode 1 (floating-point spectra: repository tests, sample files): the level map  *)
+(*                             lv recorded by the routine is the input, cst says whether the spectrum was      *)
+(*                             constant; flooding (steps 1a-1c) is then validated exactly, each step-2 sweep    *)
+(*                             against the relation SweepRel (a watershed pixel takes the label of SOME labelled *)
+(*                             neighbour), the result against the declarative C04 post-condition                *)
 (*   pinit {a=mk,b=mth,c=nspec,d=hash}  static work area after partinit()                   *)
 (*   const                     partition() took the constant-spectrum early return          *)
 (*   imi {arr} / ind {arr}     level map after discretisation / counting-sort result        *)
@@ -23,9 +28,17 @@ VARIABLES l, stage, e, w, rc, tid,
           prevcls   \* classes of the previous accepted run shifted by one bin (for paired shift-equivariance checks)
 vars == <<l, stage, e, w, rc, tid, prevcls>>
 
-RunConst(ee) == IF IsConst(ee) THEN [imi |-> <<>>, ind |-> <<>>, zp |-> <<>>, rng |-> 0]
+RunConst(ee) == IF IsConst(ee) THEN [imi |-> <<>>, ind |-> <<>>, zp |-> <<>>, rng |-> 0, mode |-> 0, cst |-> TRUE]
                 ELSE [imi |-> Levels(ee), ind |-> SortedAddr(Levels(ee)), zp |-> ZP(ee),
-                      rng |-> MaxF(ZIn(ee)) - MinF(ZIn(ee))]
+                      rng |-> MaxF(ZIn(ee)) - MinF(ZIn(ee)), mode |-> 0, cst |-> FALSE]
+RunLevels(lv, cst) == IF cst THEN [imi |-> <<>>, ind |-> <<>>, zp |-> <<>>, rng |-> 0, mode |-> 1, cst |-> TRUE]
+                      ELSE LET m == [n \in Px |-> lv[n+1]] IN
+                           [imi |-> m, ind |-> SortedAddr(m), zp |-> <<>>, rng |-> 0, mode |-> 1, cst |-> FALSE]
+\* step 2 without the spectrum values: labelled pixels keep their label, a watershed pixel with a labelled (or
+\* watershed-free) neighbourhood takes the label of one of its non-zero neighbours, otherwise it stays
+SweepRel(old, new) == \A jl \in Px :
+   IF old[jl] # 0 THEN new[jl] = old[jl]
+   ELSE LET c == {old[NB[jl][k]] : k \in 1..Len(NB[jl])} \ {0} IN IF c = {} THEN new[jl] = 0 ELSE new[jl] \in c
 Arr(i) == [n \in Px |-> TraceLog[i].arr[n+1]]
 Ev(i) == IF i <= NL THEN TraceLog[i].ev ELSE "eof"
 NextInput(i) == Min({j \in (i+1)..NL : TraceLog[j].ev = "input"} \cup {NL + 1})
@@ -39,17 +52,18 @@ Reject(clause) == /\ TLCSet(2, TLCGet(2) \cup {<<tid, clause, l>>})
 Accept == TLCSet(1, TLCGet(1) \cup {tid})
 
 TInput == /\ stage = "idle" /\ Ev(l) = "input"
-          /\ LET ee == [n \in Px |-> TraceLog[l].e[n+1]] IN
-             /\ e' = ee /\ rc' = RunConst(ee)
-             /\ w' = W0
-             /\ stage' = "pinit"
+          /\ IF TraceLog[l].mode = 1
+             THEN e' = <<>> /\ rc' = RunLevels(TraceLog[l].lv, TraceLog[l].cst = 1)
+             ELSE LET ee == [n \in Px |-> TraceLog[l].e[n+1]] IN e' = ee /\ rc' = RunConst(ee)
+          /\ w' = W0
+          /\ stage' = "pinit"
           /\ tid' = TraceLog[l].tid /\ l' = l + 1 /\ UNCHANGED prevcls
 
 \* the static work area must have been (re)built for exactly this shape, whatever ran before in the process
 TPinit == /\ stage = "pinit"
           /\ IF Ev(l) = "pinit" /\ TraceLog[l].a = NK /\ TraceLog[l].b = NTH /\ TraceLog[l].c = NSPEC
                 /\ TraceLog[l].d = NeighHash
-             THEN /\ stage' = (IF IsConst(e) THEN "const" ELSE "imi") /\ l' = l + 1 /\ UNCHANGED <<e, w, rc, tid, prevcls>>
+             THEN /\ stage' = (IF rc.cst THEN "const" ELSE "imi") /\ l' = l + 1 /\ UNCHANGED <<e, w, rc, tid, prevcls>>
              ELSE Reject("static-work-area")
 
 TConst == /\ stage = "const"
@@ -80,11 +94,17 @@ TLevel == /\ stage = "run" /\ w.pc = "next"
              THEN /\ w' = StepNext(w) /\ l' = l + 1 /\ UNCHANGED <<stage, e, rc, tid, prevcls>>
              ELSE Reject("level")
 
-TSweep == /\ stage = "run" /\ w.pc = "sweep" /\ WillSweep
+TSweep == /\ stage = "run" /\ w.pc = "sweep" /\ WillSweep /\ rc.mode = 0
           /\ LET w2 == StepW(w, rc.imi, rc.ind, rc.zp, rc.rng) IN
              IF Ev(l) = "sweep" /\ TraceLog[l].a = w.sweep /\ Arr(l) = w2.st.imo
              THEN /\ w' = w2 /\ l' = l + 1 /\ UNCHANGED <<stage, e, rc, tid, prevcls>>
              ELSE Reject("sweep")
+
+TSweepRel == /\ stage = "run" /\ w.pc = "sweep" /\ WillSweep /\ rc.mode = 1
+             /\ IF Ev(l) = "sweep" /\ TraceLog[l].a = w.sweep /\ SweepRel(w.st.imo, Arr(l))
+                THEN /\ w' = [w EXCEPT !.st = [w.st EXCEPT !.imo = Arr(l)], !.sweep = w.sweep + 1]
+                     /\ l' = l + 1 /\ UNCHANGED <<stage, e, rc, tid, prevcls>>
+                ELSE Reject("sweep-relation")
 
 TDone == /\ stage = "run" /\ w.pc = "done" /\ stage' = "out" /\ UNCHANGED <<l, e, w, rc, tid, prevcls>>
 
@@ -109,7 +129,7 @@ TOut == /\ stage = "out"
 \* an event where none is expected (e.g. the code ran more sweeps or levels than the spec)
 TStray == /\ stage = "idle" /\ l <= NL /\ Ev(l) # "input" /\ Reject("stray-event")
 
-Next == TInput \/ TPinit \/ TConst \/ TImi \/ TInd \/ TSilent \/ TLevel \/ TSweep \/ TDone \/ TOut \/ TStray
+Next == TInput \/ TPinit \/ TConst \/ TImi \/ TInd \/ TSilent \/ TLevel \/ TSweep \/ TSweepRel \/ TDone \/ TOut \/ TStray
 Spec == Init /\ [][Next]_vars
 
 Verdict == /\ PrintT(ToJson([verdict |-> "WatershedTrace", accepted |-> Cardinality(TLCGet(1)),
